@@ -174,8 +174,8 @@ func c14Run(answers []c14Answer) (outs [][]c14Out, broken string) {
 				if cl != nil {
 					cl.Close()
 				}
-				ts.CloseClientConnections()
-				ts.Close()
+				closeClientConns(ts)
+				closeTS(ts)
 			}, err
 		}
 	}
